@@ -1,7 +1,7 @@
 (* C08 — model, part 3: literals.
    String literals: lexer.rs lex_str_lit_opt (closing quote = first quote preceded by an even number
    of backslashes, no newline), source_parser.rs unescape_quotes (`\"` -> `"`, nothing else),
-   source_printer.rs `"` ++ s ++ `"` (and the repaired printer that re-escapes quotes).
+   source_printer.rs `"` ++ s with every quote re-escaped ++ `"`.
    Int literals: lexer.rs TokenProducer::process_raw_token (the 32-bit gate and the `-` merge),
    source_parser.rs `parse::<i32>().unwrap_or(0)`, printer `i.to_string()`.
    Definitions only. *)
@@ -42,14 +42,28 @@ Fixpoint unescape (l : str) : str :=
       end
   end.
 
-(* the printer, as written and as repaired *)
-Definition print_str (s : str) : str := QUOTE :: s ++ [QUOTE].
+(* the printer (7ab5ea6): `"` ++ s.replace('"', "\\\"") ++ `"` *)
 Fixpoint escape (s : str) : str :=
   match s with
   | [] => []
   | c :: s' => if (c =? QUOTE)%N then BSLASH :: QUOTE :: escape s' else c :: escape s'
   end.
-Definition print_str_fixed (s : str) : str := QUOTE :: escape s ++ [QUOTE].
+Definition print_str (s : str) : str := QUOTE :: escape s ++ [QUOTE].
+(* the printer before the repair, kept for the regression example *)
+Definition print_str_pinned (s : str) : str := QUOTE :: s ++ [QUOTE].
+
+(* a raw literal interior the lexer walks over completely: no newline, every quote preceded by an odd
+   run of backslashes; the result is the parity of the run of backslashes at its end *)
+Fixpoint walk (l : str) (odd : bool) : option bool :=
+  match l with
+  | [] => Some odd
+  | c :: l' =>
+      if (c =? QUOTE)%N then (if odd then walk l' false else None)
+      else if (c =? NL)%N then None
+      else walk l' (if (c =? BSLASH)%N then negb odd else false)
+  end.
+(* the interior of a literal the lexer accepts *)
+Definition valid_raw (r : str) : Prop := walk r false = Some false.
 
 (* what the parser reads back from the printed literal followed by `rest` *)
 Definition reparse_str (printed rest : str) : option (str * str) :=
@@ -64,8 +78,6 @@ Definition has_nl (s : str) : bool := existsb (fun c => (c =? NL)%N) s.
 Definition run_bs (b : bool) (s : str) : bool :=
   fold_left (fun b c => if (c =? BSLASH)%N then negb b else false) s b.
 
-(* K4: the string value contains a quote *)
-Definition known_C08_str (s : str) : bool := has_quote s.
 
 (* ---- int literals *)
 Local Open Scope Z_scope.
@@ -74,16 +86,17 @@ Definition MAX : Z := 2147483647. Definition MIN : Z := -2147483648.
 Inductive pending := PNone | PMinus | POther.       (* the token the producer holds back *)
 Inductive int_tok := IErr | ITok (v : Z) | IMerged. (* syntax error / IntLiteral(v) / `-` merged into IntLiteral(-2147483648) *)
 
-(* process_raw_token on a digit string of value v (i64 parse failure = error as well) *)
+(* process_raw_token on a digit string of value v (i64 parse failure = error as well); since 9eaf9b5
+   2147483648 is accepted only directly after `-` *)
 Definition gate (p : pending) (v : Z) : int_tok :=
   if v >? MAX + 1 then IErr
-  else if v =? MAX + 1 then match p with PNone => IErr | PMinus => IMerged | POther => ITok v end
+  else if v =? MAX + 1 then match p with PMinus => IMerged | _ => IErr end
   else ITok v.
 
-(* the repaired gate: 2147483648 only directly after `-` *)
-Definition gate_fixed (p : pending) (v : Z) : int_tok :=
+(* the gate before the repair, kept for the regression example *)
+Definition gate_pinned (p : pending) (v : Z) : int_tok :=
   if v >? MAX + 1 then IErr
-  else if v =? MAX + 1 then match p with PMinus => IMerged | _ => IErr end
+  else if v =? MAX + 1 then match p with PNone => IErr | PMinus => IMerged | POther => ITok v end
   else ITok v.
 
 (* Literal::Int(text.parse::<i32>().unwrap_or(0)) *)
@@ -97,7 +110,3 @@ Definition lit_value (t : int_tok) : option Z :=
 (* i32::to_string and str::parse on decimal text *)
 Definition print_int (n : Z) : string := NilZero.string_of_int (Z.to_int n).
 Definition parse_int (s : string) : option Z := option_map Z.of_int (NilZero.int_of_string s).
-
-(* K5: the literal text 2147483648 where the gate lets it through *)
-Definition known_C08_int (p : pending) (v : Z) : bool :=
-  (v =? MAX + 1) && match p with POther => true | _ => false end.
